@@ -204,8 +204,9 @@ def run(prog, tier) -> Result:
         return setup
 
     def persistent_writes(st):
-        return [e for e in st.effects if e[0] in ("setitem", "mapcall") and
-                isinstance(e[1], GlobalMapV)]
+        # (stores into directories and per-type maps; a memo of numbers computed from their keys is no declaration)
+        from ..declcases import persistent_writes as _pw
+        return _pw(st)
 
     def judge_nu(expect_sf):
         def judge(o):
